@@ -1,0 +1,26 @@
+//go:build verif
+
+package protocol
+
+// Verification hooks for property C05 (server front door): read-only exports of
+// unexported constants. Nothing here changes behaviour.
+
+const (
+	VerifC05PacketNonHeaderPosition = packetNonHeaderPosition
+	VerifC05PacketOverhead          = packetOverhead
+	VerifC05StreamOverhead          = streamOverhead
+
+	VerifC05OpenSessionRequest           = int(openSessionRequest)
+	VerifC05OpenSessionResponse          = int(openSessionResponse)
+	VerifC05CloseSessionRequest          = int(closeSessionRequest)
+	VerifC05CloseSessionResponse         = int(closeSessionResponse)
+	VerifC05DataClientToServer           = int(dataClientToServer)
+	VerifC05DataServerToClient           = int(dataServerToClient)
+	VerifC05AckClientToServer            = int(ackClientToServer)
+	VerifC05AckServerToClient            = int(ackServerToClient)
+	VerifC05DataClientToServerLowEntropy = int(dataClientToServerLowEntropy)
+	VerifC05DataServerToClientLowEntropy = int(dataServerToClientLowEntropy)
+)
+
+// VerifC05ReadOneSegmentTimeoutNanos is the read timeout of one readOneSegment call.
+func VerifC05ReadOneSegmentTimeoutNanos() int64 { return readOneSegmentTimeout.Nanoseconds() }
